@@ -478,9 +478,9 @@ def _cond_alternatives(v):
             if _is_polykey(k):
                 out.append((g, poly_from_key(k)))
             elif isinstance(k, tuple) and k and k[0] == "list":
-                out.append((g, AList([poly_from_key(x) if _is_polykey(x) else Poly.atom(x) for x in k[1]])))
+                out.append((g, AList([_value_of_key(x) for x in k[1]])))
             elif isinstance(k, tuple) and k and k[0] == "tuple":
-                out.append((g, ATuple([poly_from_key(x) if _is_polykey(x) else Poly.atom(x) for x in k[1:]])))
+                out.append((g, _value_of_key(k)))
             else:
                 return None
         return out
@@ -649,6 +649,12 @@ def make_cond(alts):
             rest = [(g, Poly({m: c for m, c in v.terms.items() if m not in common})) for g, v in alts]
             return Poly(common) + as_term(make_cond(rest))
     # lists grown on some paths only: align positionally; a missing element is `absent`
+    def _has_star(v):
+        return any(isinstance(x, Poly) and x.as_atom() is not None and x.as_atom()[0] == "star" for x in v.items)
+
+    if all(isinstance(v, AList) for _, v in alts) and any(_has_star(v) for _, v in alts) and not all(vkey(v) == k0 for _, v in alts):
+        # a spliced-in sequence stands for several elements: positions cannot be aligned before it is iterated
+        return Poly.atom(("cond", tuple((g, vkey(v)) for g, v in alts)))
     if all(isinstance(v, AList) for _, v in alts):
         n = max(len(v.items) for _, v in alts)
         items = []
@@ -762,8 +768,9 @@ WELL_KNOWN = {
 class Interp:
     """Abstract interpreter of one function (with bounded inlining of repository helpers)."""
 
-    def __init__(self, prog, inline=None, no_inline=(), max_depth=8, opaque_self_methods=(), inline_all_repo=False, copy_is_identity=True, commutative=(), resolve_new_objects=False, override=None):
+    def __init__(self, prog, inline=None, no_inline=(), max_depth=8, opaque_self_methods=(), inline_all_repo=False, copy_is_identity=True, commutative=(), resolve_new_objects=False, override=None, assume=None):
         self.prog = prog
+        self.assume = assume  # a Python test over the parameters that holds on entry (the premise under which a rule's specification is written)
         self.override = dict(override or {})  # qualname -> FunctionInfo read instead of the repository's (reference helpers of a specification)
         self.inline = set(inline or ())  # extra qualname suffixes to inline
         self.no_inline = set(no_inline)
@@ -904,7 +911,7 @@ class Frame:
                 cur = st.env[c.func.value.id]
                 ca = cur.as_atom() if isinstance(cur, Poly) else None
                 if (a is not None and a[0] == "mcall" and ca is not None and a[2] == cur.key() and c.func.attr not in READ_ONLY_METHODS
-                        and ca[0] in ("call", "mcall", "upd", "attr", "sub", "elem", "v", "after") and not (ca[0] == "call" and ca[1] == "concat")):
+                        and ca[0] in ("call", "mcall", "upd", "attr", "sub", "elem", "v", "after", "cond") and not (ca[0] == "call" and ca[1] == "concat")):
                     new = Poly.atom(("upd",) + a[1:])
                     # the edit is seen through every other name / attribute bound to the very same object
                     for k2, v2 in list(st.env.items()):
@@ -949,7 +956,7 @@ class Frame:
         if isinstance(s, ast.Continue):
             return [(st, ("continue",))]
         if isinstance(s, ast.If):
-            g = known_truth(truth_of(self.eval(s.test, st)), st.guards)
+            g = known_truth(truth_of(self.eval(s.test, st)), list(Event.prefix) + st.guards)  # what the callers' paths established holds here too
             outs = []
             if g != FALSE:
                 outs.extend(self.exec_block(s.body, st.fork(g) if g != TRUE else State(st.env, st.guards)))
@@ -1066,11 +1073,21 @@ class Frame:
         if isinstance(it, (AList, ATuple)) and not getattr(it, "doms", None):
             if len(it.items) > 16:
                 raise Unsupported("loop over %d concrete items" % len(it.items))
+            if any(isinstance(x, Poly) and x.as_atom() is not None and x.as_atom()[0] == "star" for x in it.items):
+                return self.domain_elements(AList(list(it.items), [("spliced",)]), node)
             return list(it.items)
         if isinstance(it, AList):
             # a list built over pseudo-elements: its items are the representatives
             if it.items:
-                return list(it.items)
+                out = []
+                for x in it.items:
+                    xa = x.as_atom() if isinstance(x, Poly) else None
+                    if xa is not None and xa[0] == "star" and _is_polykey(xa[1]):
+                        # the elements of a sequence that was spliced in with extend(): its own pseudo-elements
+                        out.extend(self.domain_elements(poly_from_key(xa[1]), node))
+                    else:
+                        out.append(x)
+                return out
             dk = it.key()
             return [Poly.atom(("elem", dk, i)) for i in range(K_ELEMS)]
         if isinstance(it, ADict):
@@ -1450,7 +1467,7 @@ class Frame:
                      b if not isinstance(b, (str, bool)) and b is not None else as_term(b))
 
     def e_IfExp(self, e, st):
-        g = known_truth(truth_of(self.eval(e.test, st)), st.guards)
+        g = known_truth(truth_of(self.eval(e.test, st)), list(Event.prefix) + st.guards)
         if g == TRUE:
             return self.eval(e.body, st)
         if g == FALSE:
@@ -1617,6 +1634,14 @@ class Frame:
             # alternatives laid side by side; an element an alternative does not have is absent under its test
             it = self.eval(e.generators[0].iter, st)
             alts = _cond_alternatives(it) if isinstance(it, Poly) else None
+            if not (alts is not None and 1 < len(alts) <= 4):
+                # (the iterable is evaluated once: a call in it must not be recorded twice)
+                g0 = e.generators[0]
+                gen = ast.comprehension(target=g0.target, iter=ast.Name(id="@alt", ctx=ast.Load()), ifs=g0.ifs, is_async=0)
+                s2 = State(st.env, st.guards)
+                s2.env["@alt"] = it
+                items, doms = self.comprehension(elt, [gen], s2)
+                return AList(items, doms)
             if alts is not None and 1 < len(alts) <= 4:
                 g0 = e.generators[0]
                 lists, doms = [], []
@@ -1635,6 +1660,11 @@ class Frame:
                     s2.env["@alt"] = AList(list(merged.items))
                     items, d2 = self.comprehension(elt, [gen], s2)
                     return AList(items, doms + [d for d in d2 if d not in doms])
+                gen = ast.comprehension(target=g0.target, iter=ast.Name(id="@alt", ctx=ast.Load()), ifs=g0.ifs, is_async=0)
+                s2 = State(st.env, st.guards)
+                s2.env["@alt"] = it
+                items, doms = self.comprehension(elt, [gen], s2)
+                return AList(items, doms)
         items, doms = self.comprehension(elt, e.generators, st)
         return AList(items, doms)
 
@@ -2241,10 +2271,15 @@ def _interp_run_with_env(interp, fi, args, kwargs, self_cls, carried):
         env[node.args.vararg.arg] = AList(args[len(params):])
     if node.args.kwarg:
         env[node.args.kwarg.arg] = ADict({("const", repr(k)): (k, v) for k, v in kwargs.items()})
+    entry = State(env, clone=False)
+    if interp.assume and not interp.stack:
+        g0 = truth_of(frame.eval(ast.parse(interp.assume, mode="eval").body, State(env, clone=False)))
+        if g0 != TRUE:
+            entry.guards.append(g0)
     interp.stack.append(fi.qualname)
     try:
         # the callee shares the caller's container objects (an append inside it is visible outside)
-        outs = frame.exec_block(node.body, State(env, clone=False))
+        outs = frame.exec_block(node.body, entry)
     finally:
         interp.stack.pop()
     rets, finals = [], []
